@@ -94,6 +94,8 @@ type iterInfo struct {
 	name   string // L_ name of the position variable
 	isStr  bool
 	posFn  string
+	dom, val Term
+	sums   map[string]string // spec func name -> SMT prefix-sum function
 }
 
 type Frame struct {
